@@ -125,6 +125,7 @@ CtlPrice(nd)     == nd.a = "Ctl" /\ PriceReq(RowOfN(nd), nd.args.prod, CtlOfN(nd
 CtlNoSnapshot(nd)   == nd.a = "Ctl" /\ nd.args.esm \in NoSnapshot /\ ShutdownReq(RowOfN(nd), CtlOfN(nd)) /\ RefOk(nd)
 CtlPriceInactive(nd) == CtlPrice(nd) /\ nd.args.pm = "inactive"
 CtlPriceMissingM(nd) == CtlPrice(nd) /\ nd.args.pm = "missing"
+CtlCross(nd)     == CtlPrice(nd) /\ nd.args.prod = "cross"        \* needed price of a cross-pool position off, same message succeeds with prices on
 CtlRefOk(nd)     == nd.a = "Ctl" /\ nd.args.ref = nd.id /\ nd.res.ok
 CtlRef(nd)       == nd.a = "Ctl" /\ nd.args.ref = nd.id
 CtlFree(nd)      == nd.a = "Ctl" /\ ~MustReject(RowOfN(nd), nd.args.prod, CtlOfN(nd)) /\ nd.res.ok
@@ -152,7 +153,7 @@ Stats == PrintT(<<"STATS", [nodes |-> NLog, states |-> Cnt(IsState), own |-> Cnt
            ownForeign |-> Cnt(OwnForeign), ownSignerKeyed |-> Cnt(OwnSignerKeyed), ownOwnerOk |-> Cnt(OwnOwnerOk),
            ownForeignWhole |-> Cnt(OwnForeignWhole), ownForeignOver |-> Cnt(OwnForeignOver), ownOtherScope |-> Cnt(OwnOtherScope),
            ownScopeWitness |-> Cnt(OwnScopeWitness), ctlNoSnapshot |-> Cnt(CtlNoSnapshot),
-           ctlPriceInactive |-> Cnt(CtlPriceInactive), ctlPriceMissing |-> Cnt(CtlPriceMissingM),
+           ctlPriceInactive |-> Cnt(CtlPriceInactive), ctlCrossPool |-> Cnt(CtlCross), ctlPriceMissing |-> Cnt(CtlPriceMissingM),
            privGuarded |-> Cnt(PrivGuarded), privAccepted |-> Cnt(PrivAccepted), privElsewhere |-> Cnt(PrivElse),
            openOk |-> Cnt(OpenOk), openAfterHole |-> Cnt(OpenHoleOk), openMsgs |-> Cardinality(OpenMsgs), openMsgsWitnessed |-> Cardinality(OpenWitnessed),
            holeyStates |-> Cnt(HoleyState), killRejected |-> Cnt(KillRej), killAccepted |-> Cnt(KillAcc), killRotatedAccepted |-> Cnt(KillRotatedAcc),
